@@ -82,7 +82,7 @@ def main(rep: Report, replay: dict | None, which=("A", "C", "B"), pair=False) ->
             iter_replay.replay(rep, name, g, pair=pair and name == "B")
     if which == ("A", "C", "B"):
         straight(rep)
-    iter_traces.run(rep, n_traces=1500 if rep.tier == "quick" else 20000, pair=pair)
+    iter_traces.run(rep, n_traces=1500 if rep.tier == "quick" else (8000 if pair else 20000), pair=pair)
     if which == ("A", "C", "B"):  # C08 proper: also the renderable's own seek/tell/frame_count
         from .. import seek_replay
 
